@@ -135,6 +135,9 @@ func decodeCost(b *Built, reads []int) int {
 		calls := len(b.Content) * len(reads) / sum
 		cost += calls * 40
 	}
+	if b.Format == "lzma2" {
+		cost += int(b.Dict / 2) // the reader's window is allocated (and cleared) per decode
+	}
 	if b.Format == "xz" {
 		if f := xzSpans(b.Stream); f != nil {
 			for _, st := range f.Streams {
@@ -157,8 +160,8 @@ func positionsCost(n int, bounds []int, upto int, cost int) []int {
 	if n > 16384 {
 		stride = 7
 	}
-	for float64(upto/stride+len(bounds)*(2*halo+1))*float64(cost)/2 > budget && (stride < 4096 || halo > 2) {
-		if stride < 4096 {
+	for float64(upto/stride+len(bounds)*(2*halo+1))*float64(cost)/2 > budget && (stride < 1<<22 || halo > 2) {
+		if stride < 1<<22 {
 			stride = stride*2 + 1
 		}
 		if halo > 2 {
@@ -169,8 +172,8 @@ func positionsCost(n int, bounds []int, upto int, cost int) []int {
 	// the boundaries of the first and last structures and every k-th between
 	if float64(len(bounds)*(2*halo+1))*float64(cost)/2 > budget {
 		keep := int(budget * 2 / float64(cost) / float64(2*halo+1))
-		if keep < 60 {
-			keep = 60
+		if keep < 12 {
+			keep = 12
 		}
 		if keep < len(bounds) {
 			var nb []int
